@@ -4,7 +4,7 @@ import Varpulis.Model.SaseBounds
 # Lemmas about the engine-level SASE model (C05, and the engine loop under C03)
 -/
 namespace Varpulis.SaseB
-open Varpulis.SaseK
+open Varpulis.SaseK Varpulis.Zdd
 
 theorem swapRemove_length_le {α : Type} (l : List α) (i : Nat) : (swapRemove l i).length ≤ l.length := by
   unfold swapRemove
@@ -296,5 +296,305 @@ theorem runAll_ok (nfa : Nfa) (cfg : Cfg) (hw : NfaWf nfa) (hm : 1 ≤ cfg.maxRu
     rcases List.mem_cons.mp ho' with rfl | h'
     · exact h3
     · exact h6 o' h'
+
+/-! ### the engine on `A B^n C` (one run) -/
+
+/-- captures seen by the next B event -/
+def capOf (eA : Ev) (kept : List Ev) : Cap :=
+  match kept.getLast? with | some l => capAB eA l | none => [(0, eA)]
+
+/-- one B event: kept iff it passes the eager filter and the cap is not reached -/
+def keep (pe : Option Pred) (mk : Nat) (eA : Ev) (kept : List Ev) (b : Ev) : List Ev :=
+  if predOk pe b (capOf eA kept) && decide (kept.length < mk) then kept ++ [b] else kept
+
+/-- the single run after A and the kept B events -/
+def runOf (pp : Option Pred) (eA : Ev) (kept : List Ev) (seq : Nat) : Run :=
+  match kept.getLast? with | some l => runAt2 pp eA kept l seq | none => runAt1 eA seq
+
+theorem runOf_nil (pp : Option Pred) (eA : Ev) (seq : Nat) : runOf pp eA [] seq = runAt1 eA seq := rfl
+theorem runOf_snoc (pp : Option Pred) (eA : Ev) (kept : List Ev) (b : Ev) (seq : Nat) :
+    runOf pp eA (kept ++ [b]) seq = runAt2 pp eA (kept ++ [b]) b seq := by simp [runOf]
+
+theorem adv_B (pa pe pp pc : Option Pred) (lim : Limits) (eA b : Ev) (kept : List Ev) (seq : Nat)
+    (hb : b.ty = 1) (hk : 1 ≤ lim.maxEvents) :
+    advance (nfaMid pa pe pp pc) lim (runOf pp eA kept seq) b = .cont (runOf pp eA (keep pe lim.maxEvents eA kept b) seq) ∨
+    advance (nfaMid pa pe pp pc) lim (runOf pp eA kept seq) b = .noMatch (runOf pp eA (keep pe lim.maxEvents eA kept b) seq) := by
+  cases hl : kept.getLast? with
+  | none =>
+    have hnil : kept = [] := by simpa [List.getLast?_eq_none_iff] using hl
+    subst hnil
+    simp only [runOf_nil, adv_first pa pe pp pc lim eA b seq hb hk, keep, capOf, List.getLast?_nil, List.length_nil]
+    by_cases hok : predOk pe b [(0, eA)] = true
+    · left; simp [hok, runOf, show 0 < lim.maxEvents by omega]
+    · right; simp [hok, runOf]
+  | some l =>
+    have hr : runOf pp eA kept seq = runAt2 pp eA kept l seq := by simp [runOf, hl]
+    simp only [hr, adv_loop pa pe pp pc lim eA l b kept seq hb, keep, capOf, hl]
+    by_cases hok : predOk pe b (capAB eA l) = true
+    · left
+      by_cases hcap : kept.length ≥ lim.maxEvents
+      · have : ¬ kept.length < lim.maxEvents := by omega
+        simp [hok, hcap, this, hr]
+      · have : kept.length < lim.maxEvents := by omega
+        simp [hok, hcap, this, runOf_snoc]
+    · right; simp [hok, hr]
+
+theorem tryStart_mid_none (pa pe pp pc : Option Pred) (e : Ev) (seq : Nat) (h : e.ty ≠ 0) :
+    tryStart (nfaMid pa pe pp pc) e seq = .none := by
+  simp [tryStart, nfaMid, startTargets, startEps, matchesState, tyOk, h]
+
+theorem tryStart_mid_A (pa pe pp pc : Option Pred) (e : Ev) (seq : Nat) (h : e.ty = 0) (hp : predOk pa e [] = true) :
+    tryStart (nfaMid pa pe pp pc) e seq = .run (runAt1 e seq) := by
+  simp [tryStart, nfaMid, startTargets, matchesState, tyOk, h, hp, runAt1, Run.push, Cap.setOpt, Cap.set]
+
+/-- one event on an unpartitioned engine holding exactly one run that neither completes nor restarts -/
+theorem step_single (nfa : Nfa) (cfg : Cfg) (s : Eng) (e : Ev) (r r' : Run) (hp : cfg.partitioned = false)
+    (hr : s.runs = [r]) (ha : advance nfa cfg.lim r e = .cont r' ∨ advance nfa cfg.lim r e = .noMatch r')
+    (hs : tryStart nfa e s.nextSeq = .none) :
+    step nfa cfg s e = some ({ s with runs := [r'] }, { emitted := [] }) := by
+  rcases ha with ha | ha <;>
+    simp [step, hp, hr, processRuns, ha, hs]
+
+theorem step_complete (nfa : Nfa) (cfg : Cfg) (s : Eng) (e : Ev) (r : Run) (ms : List Match) (hp : cfg.partitioned = false)
+    (hr : s.runs = [r]) (ha : advance nfa cfg.lim r e = .multi ms ∨ (∃ m, ms = [m] ∧ advance nfa cfg.lim r e = .complete m))
+    (hs : tryStart nfa e s.nextSeq = .none) :
+    step nfa cfg s e = some ({ s with runs := [], completed := s.completed + ms.length }, { emitted := [ms] }) := by
+  rcases ha with ha | ⟨m, rfl, ha⟩ <;>
+    simp [step, hp, hr, processRuns, ha, hs, swapRemove]
+
+theorem step_first (pa pe pp pc : Option Pred) (cfg : Cfg) (eA : Ev) (hp : cfg.partitioned = false) (hm : 1 ≤ cfg.maxRuns)
+    (hA : eA.ty = 0) (hpa : predOk pa eA [] = true) :
+    step (nfaMid pa pe pp pc) cfg {} eA =
+      some ({ runs := [runAt1 eA 0], created := 1, nextSeq := 1 }, { emitted := [], started := true, bp := some .added }) := by
+  have : (0 : Nat) < cfg.maxRuns := by omega
+  simp [step, hp, processRuns, tryStart_mid_A pa pe pp pc eA 0 hA hpa, handleBp, this]
+
+def quiet : Out := { emitted := [] }
+
+theorem runAll_bs (pa pe pp pc : Option Pred) (cfg : Cfg) (eA : Ev) (hp : cfg.partitioned = false)
+    (hk : 1 ≤ cfg.lim.maxEvents) :
+    ∀ (bs : List Ev) (s : Eng) (kept : List Ev), (∀ b ∈ bs, b.ty = 1) → s.runs = [runOf pp eA kept 0] →
+      ∃ s', runAll (nfaMid pa pe pp pc) cfg s bs = some (s', bs.map fun _ => quiet) ∧
+        s'.runs = [runOf pp eA (bs.foldl (keep pe cfg.lim.maxEvents eA) kept) 0] := by
+  intro bs
+  induction bs with
+  | nil => intro s kept _ hr; exact ⟨s, rfl, hr⟩
+  | cons b bs ih =>
+    intro s kept hb hr
+    have hb1 : b.ty = 1 := hb b (by simp)
+    have hstep := step_single (nfaMid pa pe pp pc) cfg s b _ _ hp hr
+      (adv_B pa pe pp pc cfg.lim eA b kept 0 hb1 hk) (tryStart_mid_none pa pe pp pc b _ (by omega))
+    obtain ⟨s', h1, h2⟩ := ih { s with runs := [runOf pp eA (keep pe cfg.lim.maxEvents eA kept b) 0] }
+      (keep pe cfg.lim.maxEvents eA kept b) (fun x hx => hb x (List.mem_cons_of_mem _ hx)) rfl
+    refine ⟨s', ?_, by simpa using h2⟩
+    simp [runAll, hstep, h1, quiet]
+
+/-- with a filter that is not evaluated eagerly (self-referencing or absent) every B is kept up to the cap -/
+theorem foldl_keep_none (mk : Nat) (eA : Ev) : ∀ (bs kept : List Ev),
+    bs.foldl (keep none mk eA) kept = kept ++ bs.take (mk - kept.length) := by
+  intro bs
+  induction bs with
+  | nil => intro kept; simp
+  | cons b bs ih =>
+    intro kept
+    simp only [List.foldl_cons, keep, predOk, Bool.true_and]
+    by_cases h : kept.length < mk
+    · simp only [h, decide_true, if_true, ih]
+      have : mk - kept.length = (mk - (kept ++ [b]).length) + 1 := by simp; omega
+      rw [this]; simp
+    · simp only [h, decide_false, Bool.false_eq_true, if_false, ih]
+      have : mk - kept.length = 0 := by omega
+      simp [this]
+
+/-- a filter that does not mention the Kleene alias does not depend on its binding -/
+theorem evalPred_consistent (p : Pred) (e : Ev) (c c' : Cap) (h : selfRef (some 1) p = false)
+    (hc : ∀ al, al ≠ 1 → Cap.get c al = Cap.get c' al) : evalPred p e c = evalPred p e c' := by
+  induction p with
+  | cmp f op v => simp [evalPred]
+  | cmpRef f op al rf =>
+    have hne : al ≠ 1 := by
+      intro hc'; subst hc'; simp [selfRef] at h
+    simp [evalPred, hc al hne]
+  | and p q ihp ihq =>
+    simp [selfRef] at h
+    simp [evalPred, ihp h.1, ihq h.2]
+  | or p q ihp ihq =>
+    simp [selfRef] at h
+    simp [evalPred, ihp h.1, ihq h.2]
+  | not p ih => simp [selfRef] at h; simp [evalPred, ih h]
+
+theorem predOk_capOf (pe : Option Pred) (b eA : Ev) (kept : List Ev)
+    (h : ∀ p, pe = some p → selfRef (some 1) p = false) :
+    predOk pe b (capOf eA kept) = predOk pe b [(0, eA)] := by
+  cases pe with
+  | none => rfl
+  | some p =>
+    unfold capOf
+    cases kept.getLast? with
+    | none => rfl
+    | some l =>
+      simp only [predOk, capAB]
+      apply evalPred_consistent p b _ _ (h p rfl)
+      intro al hal
+      have : (al == 1) = false := by simpa using hal
+      simp [Cap.get, List.lookup_cons, this]
+
+/-- with a consistent filter the kept events are those that satisfy it (captures: only `a`), up to the cap -/
+theorem foldl_keep_consistent (pe : Option Pred) (mk : Nat) (eA : Ev)
+    (h : ∀ p, pe = some p → selfRef (some 1) p = false) : ∀ (bs kept : List Ev),
+    bs.foldl (keep pe mk eA) kept = kept ++ (bs.filter fun b => predOk pe b [(0, eA)]).take (mk - kept.length) := by
+  intro bs
+  induction bs with
+  | nil => intro kept; simp
+  | cons b bs ih =>
+    intro kept
+    simp only [List.foldl_cons, keep, predOk_capOf pe b eA kept h]
+    by_cases hok : predOk pe b [(0, eA)] = true
+    · simp only [hok, Bool.true_and, List.filter_cons, if_true]
+      by_cases hl : kept.length < mk
+      · simp only [hl, decide_true, if_true, ih]
+        have : mk - kept.length = (mk - (kept ++ [b]).length) + 1 := by simp; omega
+        rw [this]; simp
+      · simp only [hl, decide_false, Bool.false_eq_true, if_false, ih]
+        have : mk - kept.length = 0 := by omega
+        simp [this]
+    · simp only [hok, Bool.false_and, Bool.false_eq_true, if_false, ih, List.filter_cons]
+
+theorem runAll_append (nfa : Nfa) (cfg : Cfg) : ∀ (xs ys : List Ev) (s : Eng),
+    runAll nfa cfg s (xs ++ ys) =
+      match runAll nfa cfg s xs with
+      | none => none
+      | some (s1, o1) => (runAll nfa cfg s1 ys).map fun (s2, o2) => (s2, o1 ++ o2) := by
+  intro xs
+  induction xs with
+  | nil => intro ys s; simp [runAll]
+  | cons x xs ih =>
+    intro ys s
+    simp only [List.cons_append, runAll]
+    cases hst : step nfa cfg s x with
+    | none => rfl
+    | some so =>
+      obtain ⟨s1, o⟩ := so
+      simp only [ih ys s1]
+      cases runAll nfa cfg s1 xs with
+      | none => rfl
+      | some r =>
+        obtain ⟨s2, o2⟩ := r
+        simp only [Option.map_some]
+        cases runAll nfa cfg s2 ys with
+        | none => rfl
+        | some r3 => obtain ⟨s3, o3⟩ := r3; simp
+
+theorem evalDeferred_eq_chainOk (p : Pred) (al : Option Nat) (cap : Cap) : ∀ (l : List Ev),
+    evalDeferred p al cap l = Spec.chainOk p al cap l := by
+  intro l
+  induction l with
+  | nil => rfl
+  | cons a l ih =>
+    cases l with
+    | nil => rfl
+    | cons b l => simp only [evalDeferred, Spec.chainOk, ih]
+
+theorem pick_eq_map (kept : List Ev) : ∀ (s : List Nat), (∀ i ∈ s, i < kept.length) →
+    Spec.pick kept s = s.map fun i => kept.getD i default := by
+  intro s
+  induction s with
+  | nil => intro _; rfl
+  | cons i t ih =>
+    intro h
+    have hi : i < kept.length := h i (by simp)
+    have := ih (fun j hj => h j (List.mem_cons_of_mem _ hj))
+    simp only [Spec.pick] at this ⊢
+    simp [List.filterMap_cons, List.getElem?_eq_getElem hi, this, List.getD_eq_getElem?_getD]
+
+theorem kinv_kcOf (pp : Option Pred) (kept : List Ev) : KInv (kcOf pp kept) := by
+  constructor
+  · rfl
+  · simp [kcOf]
+  · intro h; simp only [kcOf] at h ⊢; simp [h]
+  · intro h; simp only [kcOf] at h ⊢; simp [h]
+
+/-- on index sets over the kept events, the loop body of `enumerate_with_filter` decides admissibility -/
+theorem comboOk_eq_admissible (r : Run) (p : Pred) (kept : List Ev) (s : List Nat) (hs : ∀ i ∈ s, i < kept.length) :
+    comboOk r p (s, entriesOf (kcOf (some p) kept) s) = Spec.admissible p (some 1) r.captured kept s := by
+  cases s with
+  | nil => simp [comboOk, Spec.admissible, entriesOf]
+  | cons i t =>
+    have hi : i < kept.length := hs i (by simp)
+    have hal : deferredAlias p (entriesOf (kcOf (some p) kept) (i :: t)) = some 1 := by
+      simp [deferredAlias, entriesOf, kcOf, List.getD_eq_getElem?_getD, List.getElem?_replicate, hi]
+    have hev : (entriesOf (kcOf (some p) kept) (i :: t)).map (·.ev) = Spec.pick kept (i :: t) := by
+      rw [pick_eq_map kept _ hs]
+      simp [entriesOf, kcOf]
+    simp only [comboOk, Spec.admissible, hal, hev, evalDeferred_eq_chainOk]
+    simp [entriesOf]
+
+/-- stack of a completed `A -> all B -> C` match -/
+def stackOf (eA : Ev) (kept : List Ev) (eC : Ev) : List Entry :=
+  (⟨eA, some 0⟩ :: kept.map (⟨·, some 1⟩)) ++ [⟨eC, some 2⟩]
+
+/-- captures at completion: `c`, then `b` = last kept B, then `a` -/
+def capC (eA last eC : Ev) : Cap := (2, eC) :: capAB eA last
+
+/-- the run that reached the accept state -/
+def runAt4 (pp : Option Pred) (eA : Ev) (kept : List Ev) (last eC : Ev) : Run :=
+  { cur := 4, stack := stackOf eA kept eC, captured := capC eA last eC, seq := 0, kc := some (kcOf pp kept) }
+
+theorem adv_first_C (pa pe pp pc : Option Pred) (lim : Limits) (eA c : Ev) (seq : Nat) (hc : c.ty = 2) :
+    advance (nfaMid pa pe pp pc) lim (runAt1 eA seq) c = .noMatch (runAt1 eA seq) := by
+  simp [advance, nfaMid, runAt1, tryTransitions, tryEps, matchesState, tyOk, hc]
+
+/-- the emitted matches, event by event, of `A B^n C` on `A -> all B -> C` -/
+theorem emitted_mid (pa pe pp pc : Option Pred) (cfg : Cfg) (eA eC : Ev) (bs : List Ev)
+    (hp : cfg.partitioned = false) (hm : 1 ≤ cfg.maxRuns) (hk : 1 ≤ cfg.lim.maxEvents)
+    (hA : eA.ty = 0) (hpa : predOk pa eA [] = true) (hB : ∀ b ∈ bs, b.ty = 1) (hC : eC.ty = 2) :
+    emittedAll (nfaMid pa pe pp pc) cfg (eA :: (bs ++ [eC])) =
+      some ([] :: (bs.map fun _ => []) ++
+        [match (bs.foldl (keep pe cfg.lim.maxEvents eA) []).getLast? with
+         | none => []
+         | some l =>
+           if predOk pc eC (capAB eA l) then
+             (match completeRun (runAt4 pp eA (bs.foldl (keep pe cfg.lim.maxEvents eA) []) l eC) cfg.lim with
+              | .multi ms => [ms]
+              | .complete m => [[m]]
+              | _ => [])
+           else []]) := by
+  have h1 := step_first pa pe pp pc cfg eA hp hm hA hpa
+  obtain ⟨s2, h2, h2r⟩ := runAll_bs pa pe pp pc cfg eA hp hk bs
+    { runs := [runAt1 eA 0], created := 1, nextSeq := 1 } [] hB rfl
+  generalize hkept : bs.foldl (keep pe cfg.lim.maxEvents eA) [] = kept at h2r ⊢
+  have hns := tryStart_mid_none pa pe pp pc eC s2.nextSeq (by omega)
+  simp only [emittedAll, runAll, h1, runAll_append, h2]
+  cases hl : kept.getLast? with
+  | none =>
+    have hr : s2.runs = [runAt1 eA 0] := by simpa [runOf, hl] using h2r
+    have := step_single (nfaMid pa pe pp pc) cfg s2 eC _ _ hp hr (Or.inr (adv_first_C pa pe pp pc cfg.lim eA eC 0 hC)) hns
+    simp [runAll, this, quiet]
+  | some l =>
+    have hr : s2.runs = [runAt2 pp eA kept l 0] := by simpa [runOf, hl] using h2r
+    have hadv := adv_complete pa pe pp pc cfg.lim eA l eC kept 0 hC
+    by_cases hok : predOk pc eC (capAB eA l) = true
+    · simp only [hok, if_true] at hadv ⊢
+      have hr4 : ({ cur := 4, stack := (⟨eA, some 0⟩ :: kept.map (⟨·, some 1⟩)) ++ [⟨eC, some 2⟩],
+                    captured := (2, eC) :: capAB eA l, seq := 0, kc := some (kcOf pp kept) } : Run) = runAt4 pp eA kept l eC := rfl
+      rw [hr4] at hadv
+      have hcr := completeRun_ok (nfaMid pa pe pp pc) cfg.lim (runAt4 pp eA kept l eC)
+        (by intro k hk; simp [runAt4] at hk; subst hk; exact kinv_kcOf pp kept)
+      cases hcomp : completeRun (runAt4 pp eA kept l eC) cfg.lim with
+      | multi ms =>
+        rw [hcomp] at hadv
+        have := step_complete (nfaMid pa pe pp pc) cfg s2 eC _ ms hp hr (Or.inl hadv) hns
+        simp [runAll, this, quiet]
+      | complete m =>
+        rw [hcomp] at hadv
+        have := step_complete (nfaMid pa pe pp pc) cfg s2 eC _ [m] hp hr (Or.inr ⟨m, rfl, hadv⟩) hns
+        simp [runAll, this, quiet]
+      | panic => rw [hcomp] at hcr; exact absurd hcr (by simp [AdvOk])
+      | cont r => simp [completeRun] at hcomp; repeat (split at hcomp <;> try simp at hcomp)
+      | noMatch r => simp [completeRun] at hcomp; repeat (split at hcomp <;> try simp at hcomp)
+      | completeCont r m => simp [completeRun] at hcomp; repeat (split at hcomp <;> try simp at hcomp)
+    · simp only [hok] at hadv ⊢
+      have := step_single (nfaMid pa pe pp pc) cfg s2 eC _ _ hp hr (Or.inr hadv) hns
+      simp [runAll, this, quiet]
 
 end Varpulis.SaseB
